@@ -10,3 +10,5 @@ import Librfn.Props.C20
 import Librfn.Props.C12
 import Librfn.Props.C13
 import Librfn.Props.C14
+import Librfn.Props.C10
+import Librfn.Props.C04
